@@ -188,6 +188,19 @@ def replay_tassign(cases, F, mon):
         if st != "ok":
             F.add("compatible_rejected", c, type(e).__name__ + ": " + str(e)[:80], "accepted", **info)
             continue
+        # the same assignment when the LAST addressed column shares its storage with another live vector:
+        # it must be refused with AliasError and change nothing (C01), also in the columns written "before" it
+        if len(idx0) > 1:
+            t3 = build()
+            keep_alive = t3.cols()[idx0[-1]] << []           # x << [] re-uses x's storage
+            if keep_alive._underlying is t3.cols()[idx0[-1]]._underlying:
+                b3 = table_view(t3)
+                st3, _, e3 = attempt(lambda: form[1](t3))
+                ex += 1
+                if st3 == "ok":
+                    F.add("shared_write_not_refused_note", c, "write to shared storage performed", "AliasError (or a local copy-on-write)", **info)
+                elif type(e3).__name__ == "AliasError" and not views_equal(b3, table_view(t3)):
+                    F.add("refused_changes_nothing", c, table_rows(t3), "table unchanged after AliasError", **info)
         for i in range(w):
             col = t.cols()[i]
             old = col_vals(kinds[i], nl[i])
@@ -254,6 +267,25 @@ def struct(out_path):
                         F.add("names", case, r.column_names(), names, how=label)
                     if not views_equal([list(c) for c in t.cols()], cols):
                         F.add("operands_unchanged", case, "t changed by >>", "unchanged", how=label)
+                # donors handed to >> / Table(...) are operands too: contents, NAME and dtype must survive (C01),
+                # whether the call succeeds or is refused
+                for dname in (None, "d"):
+                    for dl in (nrows, nrows + 1):
+                        donor = Vector([5] * dl, name=dname)
+                        dv = vec_view(donor)
+                        for label, mk in (("t >> {name: Vector}", lambda: t >> {"z": donor}), ("t >> Vector", lambda: t >> donor),
+                                          ("Table({name: Vector})", lambda: Table({"z": donor})),
+                                          ("Table([.., Vector])", lambda: Table(list(t.cols()) + [donor]))):
+                            st, r, e = attempt(mk)
+                            ex += 1
+                            if not views_equal(dv, vec_view(donor)):
+                                F.add("operands_unchanged", case, {"donor after " + label: vec_view(donor)}, dv, how=label)
+                                donor = Vector([5] * dl, name=dname)
+                                dv = vec_view(donor)
+                            if st == "ok" and isinstance(r, Table) and any(col is donor for col in r.cols()):
+                                F.add("operands_unchanged", case, "the table holds the donor object itself", "a snapshot", how=label)
+                            if not views_equal([list(c) for c in t.cols()], cols) or t.column_names() != names:
+                                F.add("operands_unchanged", case, "t changed by " + label, "unchanged", how=label)
                 # wrong length is rejected rather than stored
                 st, r, e = attempt(lambda: t >> {"z": [5] * (nrows + 1)})
                 ex += 1
